@@ -165,6 +165,12 @@ def check(case):
                 if not connected:
                     l = l.clone()
                 getattr(l, method)(*([item] if item is not None else []))
+                for q in ("induced_set", "induced_segments_set", "induced_edges_set", "captured_path", "captured_segments", "captured_edges"):
+                    if hasattr(type(l), q):
+                        try:
+                            getattr(l, q)             # (an unconnected group cannot be resolved: a gfapy error says so)
+                        except gfapy.Error:
+                            pass
                 str(l); str(g); g.validate()
             elif op == "field-queries":
                 name, field = arg
